@@ -9,7 +9,7 @@ use crate::debugger::error::Error::{
     DieNotFound, EvalOptionRequired, EvalUnsupportedRequire, FunctionNotFound, ImplicitPointer,
     NoDieType, Ptrace, TypeBinaryRepr, UnwindNoContext,
 };
-use crate::debugger::register::{DwarfRegisterMap, RegisterMap};
+use crate::debugger::register::{DwarfRegisterMap, Register as MachineRegister, RegisterMap};
 use crate::debugger::{ExplorationContext, debugee};
 use crate::version::RustVersion;
 use crate::{debugger, weak_error};
@@ -142,6 +142,27 @@ impl<'a> RequirementsResolver<'a> {
                     .context_for(&ExplorationContext::new(location, ecx.frame_num()))?
                     .ok_or(UnwindNoContext)?
                     .registers())
+            })
+            .map(|mut registers: DwarfRegisterMap| {
+                // what a caller-saved register held at the function entry can't be recovered by
+                // unwinding (a location refers to its entry value exactly when the register has
+                // been overwritten since): unknown is right, the current value is not
+                for register in [
+                    MachineRegister::Rax,
+                    MachineRegister::Rcx,
+                    MachineRegister::Rdx,
+                    MachineRegister::Rsi,
+                    MachineRegister::Rdi,
+                    MachineRegister::R8,
+                    MachineRegister::R9,
+                    MachineRegister::R10,
+                    MachineRegister::R11,
+                ] {
+                    if let Some(dwarf_register) = register.dwarf_register() {
+                        registers.invalidate(dwarf_register);
+                    }
+                }
+                registers
             })
     }
 }
@@ -344,10 +365,22 @@ impl<'a> ExpressionEvaluator<'a> {
                 }
                 EvaluationResult::RequiresEntryValue(expr) => {
                     let regs = self.resolver.resolve_registers(ecx)?;
-                    let ctx_resolver = ExternalRequirementsResolver::default()
-                        .with_entry_registers(ecx.pid_on_focus(), regs);
-                    let eval_res = self.evaluate_with_resolver(ctx_resolver, ecx, expr)?;
-                    let u = eval_res.into_scalar::<u64>(AddressKind::MemoryAddress)?;
+                    // `entry_value(regN)` is the value the register had at the function entry:
+                    // take it from the entry registers, the register location itself holds
+                    // what the function has put there since
+                    let mut operations = expr.clone().operations(self.encoding);
+                    let entry_register = match (operations.next()?, operations.next()?) {
+                        (Some(gimli::Operation::Register { register }), None) => Some(register),
+                        _ => None,
+                    };
+                    let u = if let Some(register) = entry_register {
+                        regs.value(register)?
+                    } else {
+                        let ctx_resolver = ExternalRequirementsResolver::default()
+                            .with_entry_registers(ecx.pid_on_focus(), regs);
+                        let eval_res = self.evaluate_with_resolver(ctx_resolver, ecx, expr)?;
+                        eval_res.into_scalar::<u64>(AddressKind::MemoryAddress)?
+                    };
                     result = eval.resume_with_entry_value(Value::Generic(u))?;
                 }
                 EvaluationResult::RequiresParameterRef(_) => {
